@@ -312,6 +312,16 @@ const stringAxioms = `(declare-fun utf8.enc1 (Int) Sq_Int)
 (assert (forall ((a Sq_Int) (b Sq_Int)) (! (= (utf8.enc (Sq_Int.cat a b)) (Sq_Int.cat (utf8.enc a) (utf8.enc b))) :pattern ((utf8.enc (Sq_Int.cat a b))))))
 (assert (forall ((r Int)) (! (= (utf8.enc (Sq_Int.unit r)) (utf8.enc1 r)) :pattern ((utf8.enc (Sq_Int.unit r))))))
 (assert (= (utf8.enc Sq_Int.empty) Sq_Int.empty))
+(assert (forall ((a Sq_Int) (b Sq_Int)) (! (= (utf8.enc (Sq_Int.cat a b)) (Sq_Int.cat (utf8.enc a) (utf8.enc b))) :pattern ((Sq_Int.cat (utf8.enc a) (utf8.enc b))))))
+(assert (forall ((s Sq_Int)) (! (=> (utf8.clean s) (= (utf8.san s) s)) :pattern ((utf8.san s)))))
+(assert (forall ((a Sq_Int) (b Sq_Int)) (! (= (utf8.clean (Sq_Int.cat a b)) (and (utf8.clean a) (utf8.clean b))) :pattern ((utf8.clean (Sq_Int.cat a b))))))
+(assert (forall ((s Sq_Int) (n Int)) (! (=> (and (utf8.clean s) (<= 0 n) (<= n (Sq_Int.len s))) (utf8.clean (Sq_Int.take s n))) :pattern ((utf8.clean (Sq_Int.take s n))))))
+(assert (forall ((s Sq_Int) (n Int)) (! (=> (and (utf8.clean s) (<= 0 n) (<= n (Sq_Int.len s))) (utf8.clean (Sq_Int.drop s n))) :pattern ((utf8.clean (Sq_Int.drop s n))))))
+(assert (utf8.clean Sq_Int.empty))
+(assert (forall ((r Int)) (! (= (utf8.clean (Sq_Int.unit r)) (utf8.valid1 r)) :pattern ((utf8.clean (Sq_Int.unit r))))))
+(assert (forall ((s Sq_Int)) (! (utf8.clean (utf8.san s)) :pattern ((utf8.san s)))))
+(assert (forall ((s Sq_Int)) (! (utf8.clean (utf8.dec s)) :pattern ((utf8.dec s)))))
+(assert (forall ((s Sq_Int)) (! (=> (= (Sq_Int.len (utf8.enc s)) 0) (= (Sq_Int.len s) 0)) :pattern ((utf8.enc s)))))
 (assert (forall ((s Sq_Int)) (! (<= (Sq_Int.len (utf8.dec s)) (Sq_Int.len s)) :pattern ((utf8.dec s)))))
 (assert (forall ((s Sq_Int)) (! (<= (Sq_Int.len s) (Sq_Int.len (utf8.enc s))) :pattern ((utf8.enc s)))))
 (assert (forall ((s Sq_Int)) (! (=> (> (Sq_Int.len s) 0) (> (Sq_Int.len (utf8.dec s)) 0)) :pattern ((utf8.dec s)))))
